@@ -169,9 +169,17 @@ def compare(b, inputs, ts, res, base=None, confs=None, run_order=None):
     res.ev()
     res.count("back_to_zero_runs")
     if err2 or again is None or [{k: r.get(k) for k in COLS} for r in again] != [{k: r.get(k) for k in COLS} for r in base]:
-        if not any(tainted(r) for r in (again or [])) and not any(tainted(r) for r in base):
+        only_mcs = again is not None and len(again) == len(base) and all(
+            "mcs-based" in (x.get("solved_by"), y.get("solved_by"))
+            for x, y in zip(base, again) if {k: x.get(k) for k in COLS} != {k: y.get(k) for k in COLS})
+        if rowlib.machine_busy() and only_mcs and not err2:
+            res.count("mcs_row_differences_not_judged(busy machine)")
+        elif not any(tainted(r) for r in (again or [])) and not any(tainted(r) for r in base):
             res.viol("threshold_zero_run_differs_after_other_thresholds", inputs=inputs, thresholds=ts[-1:],
                      case={"reaction": inputs[0], "threshold": 0})
+    busy = rowlib.machine_busy()
+    if busy:
+        res.count("sweeps_on_a_busy_machine")
     taint = set()
     for t, rows in runs.items():
         for i, r in enumerate(rows or []):
@@ -198,6 +206,11 @@ def compare(b, inputs, ts, res, base=None, confs=None, run_order=None):
                 near = any(abs(t - x) <= 0.0005 for x in confs) or (confs and confs[0] < t < confs[-1])
                 if near:
                     res.case([inputs[i], t])
+                if c != c0 and busy:
+                    # another run of the same search gave another result on a busy machine (an inner wall-clock
+                    # budget may have fired silently): not judged
+                    res.count("mcs_row_differences_not_judged(busy machine)")
+                    continue
                 if c != c0:
                     res.viol("confidence_depends_on_threshold", **w)
                     continue
@@ -217,7 +230,10 @@ def compare(b, inputs, ts, res, base=None, confs=None, run_order=None):
                         res.count("demoted_rows_without_mcs_label(not asserted)")
                 else:
                     if {k: r.get(k) for k in COLS} != {k: r0.get(k) for k in COLS}:
-                        res.viol("kept_mcs_row_differs_between_thresholds", **w)
+                        if busy:
+                            res.count("mcs_row_differences_not_judged(busy machine)")
+                        else:
+                            res.viol("kept_mcs_row_differs_between_thresholds", **w)
             else:
                 res.count("other_rows_evaluated")
                 if {k: r.get(k) for k in COLS} != {k: r0.get(k) for k in COLS}:
